@@ -20,7 +20,7 @@ Definition memb (n : nat) (l : list nat) : bool := existsb (Nat.eqb n) l.
    copy is readable *)
 Definition cluster_env (holds : list node) (v : node) : env :=
   mkEnv v true (fun _ => false) (fun n => if memb n holds then Has else NotFound)
-        (fun _ => true) true.
+        (fun _ => RStored) true.
 
 (* one policer check of the object on node v *)
 Definition node_result (nodes : list node) (R : nat) (holds : list node) (v : node) : result :=
